@@ -17,6 +17,7 @@ impl<K> KSet<K> {
 }
 impl<K, V> ImMap<K, V> {
     pub uninterp spec fn view(&self) -> Map<K, V>;
+    #[verifier::external_body] pub fn new() -> (r: Self) ensures r@ == Map::<K, V>::empty() { unimplemented!() }
     #[verifier::external_body] pub fn contains_key(&self, k: &K) -> (r: bool) ensures r == self@.contains_key(*k) { unimplemented!() }
     #[verifier::external_body] pub fn insert(&mut self, k: K, v: V) -> (r: Option<V>)
         ensures final(self)@ == old(self)@.insert(k, v) { unimplemented!() }
@@ -114,10 +115,18 @@ impl From<AnyhowError> for ConsensusError { #[verifier::external_body] fn from(e
 impl From<CtxError> for ConsensusError { #[verifier::external_body] fn from(e: CtxError) -> (r: ConsensusError) { unimplemented!() } }
 // the parts of network::Config the gossip handshake reads
 #[verifier::external_body] pub struct StaticOutbound { _p: u8 }
-#[verifier::external_body] pub struct StaticInbound { _p: u8 }
-impl StaticOutbound { #[verifier::external_body] pub fn contains_key(&self, k: &NodeKey) -> bool { unimplemented!() } }
-impl StaticInbound { #[verifier::external_body] pub fn contains(&self, k: &NodeKey) -> bool { unimplemented!() } }
-pub struct GossipConfig { pub key: NodeSecret, pub static_outbound: StaticOutbound, pub static_inbound: StaticInbound }
+pub type StaticInbound = NodeKeySet;                                   // HashSet<node::PublicKey>
+impl StaticOutbound {
+    pub uninterp spec fn dom(&self) -> Set<NodeKey>;           // the peers this node dials (HashMap<node::PublicKey, Host>)
+    #[verifier::external_body] pub fn contains_key(&self, k: &NodeKey) -> bool { unimplemented!() }
+}
+#[verifier::external_body] pub struct NodeKeySet { _p: u8 }             // HashSet<node::PublicKey>
+impl NodeKeySet {
+    pub uninterp spec fn view(&self) -> Set<NodeKey>;
+    #[verifier::external_body] pub fn contains(&self, k: &NodeKey) -> bool { unimplemented!() }
+}
+impl Clone for NodeKeySet { #[verifier::external_body] fn clone(&self) -> (r: Self) ensures r == *self { unimplemented!() } }
+pub struct GossipConfig { pub key: NodeSecret, pub static_outbound: StaticOutbound, pub static_inbound: StaticInbound, pub dynamic_inbound_limit: usize }
 pub struct Config { pub gossip: GossipConfig, pub build_version: Option<Version> }
 pub struct Connection { pub key: NodeKey, pub build_version: Option<Version>, pub stats: Stats }       // gossip::Connection
 #[verifier::external_body] pub fn opt_version_clone(v: &Option<Version>) -> (r: Option<Version>) ensures r == *v { unimplemented!() }
@@ -251,7 +260,14 @@ pub open spec fn val_authenticated(sid: Keccak256, genesis: GenesisHash, k: Vali
 // reached by the task whose insert() succeeded (ghost flag).
 #[verifier::external_body] pub struct NodePool { _p: u8 }
 #[verifier::external_body] pub struct ValPool { _p: u8 }
+#[verifier::external_body] pub struct ValKeySet { _p: u8 }              // HashSet<validator::PublicKey>
+impl ValKeySet { pub uninterp spec fn view(&self) -> Set<ValidatorKey>; }
+impl Clone for ValKeySet { #[verifier::external_body] fn clone(&self) -> (r: Self) ensures r == *self { unimplemented!() } }
 impl NodePool {
+    // the configured ("allowed") identities and the quota for all others: what PoolWatch::new (verified above as pool_new) stores
+    pub uninterp spec fn allowed(&self) -> Set<NodeKey>;
+    pub uninterp spec fn limit(&self) -> usize;
+    #[verifier::external_body] pub fn new(allowed: NodeKeySet, extra_limit: usize) -> (r: Self) ensures r.allowed() == allowed@, r.limit() == extra_limit { unimplemented!() }
     #[verifier::external_body]
     pub async fn insert(&self, k: NodeKey, v: Arc<Connection>, Ghost(sid): Ghost<Keccak256>, Ghost(genesis): Ghost<GenesisHash>) -> (r: Result<(), AnyhowError>)
         requires node_authenticated(sid, genesis, k) { unimplemented!() }
@@ -259,6 +275,9 @@ impl NodePool {
     pub async fn remove(&self, k: &NodeKey, Ghost(registered): Ghost<Option<NodeKey>>) requires registered == Some(*k) { unimplemented!() }
 }
 impl ValPool {
+    pub uninterp spec fn allowed(&self) -> Set<ValidatorKey>;
+    pub uninterp spec fn limit(&self) -> usize;
+    #[verifier::external_body] pub fn new(allowed: ValKeySet, extra_limit: usize) -> (r: Self) ensures r.allowed() == allowed@, r.limit() == extra_limit { unimplemented!() }
     #[verifier::external_body]
     pub async fn insert(&self, k: ValidatorKey, v: Stats, Ghost(sid): Ghost<Keccak256>, Ghost(genesis): Ghost<GenesisHash>) -> (r: Result<(), AnyhowError>)
         requires val_authenticated(sid, genesis, k) { unimplemented!() }
@@ -341,12 +360,94 @@ def add_runners(U):
          spec="    ensures true,\n")
 
 
+NEW_PRELUDE = r"""
+// ---------------- construction of the pools: who counts as configured, and the quota for everybody else ----------------
+#[verifier::external_body] pub struct EngineManager { _p: u8 }
+#[verifier::external_body] #[derive(Clone, Copy)] pub struct EpochNumber { _p: u8 }
+#[verifier::external_body] pub struct ConsensusSender { _p: u8 }
+#[verifier::external_body] pub struct AddrsWatch { _p: u8 }
+#[verifier::external_body] pub struct FetchQueue { _p: u8 }
+#[verifier::external_body] pub struct TxPool { _p: u8 }
+#[verifier::external_body] pub struct AtomicCounter { _p: u8 }
+#[verifier::external_body] pub struct MsgPool { _p: u8 }
+impl AddrsWatch { #[verifier::external_body] pub fn default() -> Self { unimplemented!() } }
+impl FetchQueue { #[verifier::external_body] pub fn default() -> Self { unimplemented!() } }
+impl MsgPool { #[verifier::external_body] pub fn new() -> Self { unimplemented!() } }
+impl EngineManager { #[verifier::external_body] pub fn tx_pool_sender(&self) -> TxPool { unimplemented!() } }
+#[verifier::external_body] pub fn atomic_zero() -> AtomicCounter { unimplemented!() }
+// R-type: the fields of gossip::Network (all of them: this is its constructor)
+pub struct GossipNetworkAll {
+    pub epoch_number: Option<EpochNumber>, pub cfg: Config, pub inbound: NodePool, pub outbound: NodePool, pub validator_addrs: AddrsWatch,
+    pub engine_manager: Arc<EngineManager>, pub consensus_sender: ConsensusSender, pub fetch_queue: FetchQueue, pub tx_pool: TxPool,
+    pub push_validator_addrs_calls: AtomicCounter,
+}
+// R-chain: `cfg.gossip.static_outbound.keys().cloned().collect()` (A1)
+#[verifier::external_body] pub fn tmpl_keys_cloned_collect(m: &StaticOutbound) -> (r: NodeKeySet) ensures r@ == m.dom() { unimplemented!() }
+// consensus side: the committee of the epoch as a key set
+#[verifier::external_body] pub struct ValSchedule { _p: u8 }
+impl ValSchedule { pub uninterp spec fn members(&self) -> Set<ValidatorKey>; }
+#[verifier::external_body] pub fn tmpl_schedule_keys_cloned_collect(s: &ValSchedule) -> (r: ValKeySet) ensures r@ == s.members() { unimplemented!() }   // .keys().cloned().collect()
+pub struct GossipForConsensus { pub epoch_number: Option<EpochNumber>, pub validator_key: Option<ValidatorSecret>, pub schedule: Option<ValSchedule> }
+impl GossipForConsensus {
+    #[verifier::external_body] pub fn validator_schedule(&self) -> (r: Result<Option<&ValSchedule>, AnyhowError>)
+        ensures r matches Ok(o) ==> (o.is_some() == self.schedule.is_some()) && (o matches Some(s) ==> *s == self.schedule->Some_0) { unimplemented!() }
+}
+impl Clone for ValidatorSecret { #[verifier::external_body] fn clone(&self) -> (r: Self) ensures r == *self { unimplemented!() } }
+pub struct ConsensusNetworkAll { pub gossip: Arc<GossipForConsensus>, pub key: ValidatorSecret, pub inbound: ValPool, pub outbound: ValPool, pub msg_pool: MsgPool }
+"""
+
+F_GM = "node/components/network/src/gossip/mod.rs"
+
+
+def add_constructors(U):
+    # PoolWatch::new: the pool it wraps starts empty, with exactly the given configured set and quota
+    U.fn(F_POOL, "impl<K: std::hash::Hash + Eq + Clone, V: Clone> PoolWatch<K, V> :: fn new", name="pool_new", ret="r",
+         header_subs=[("allowed: HashSet<K>", "allowed: KSet<K>"), ("-> Self", "-> Pool<K, V>"), ("fn new(", "fn new<K, V>(")],
+         subs=[("Self(Watch::new(Pool {", "((Pool {   /* R-type: PoolWatch(Watch<Pool>) is the pool behind a lock */"), ("im::HashMap::new()", "ImMap::new()")],
+         proof_at_start="proof { assert(Map::<K, V>::empty().dom().difference(allowed@) =~= Set::<K>::empty()); }",
+         spec="""
+    ensures r.allowed == allowed, r.extra_limit == extra_limit, r.extra_count == 0, r.current@ == Map::<K, V>::empty(), r.wf(),
+""")
+    U.raw(NEW_PRELUDE, label="prelude constructors")
+    U.fn(F_GM, "impl Network :: fn new", wrap="impl GossipNetworkAll", ret="r",
+         header_subs=[("Arc<EngineManager>", "Arc<EngineManager>"), ("Option<validator::EpochNumber>", "Option<EpochNumber>"),
+                      ("sync::prunable_mpsc::Sender<io::ConsensusReq>", "ConsensusSender")],
+         subs=[("Arc::new(Self {", "Arc::new(GossipNetworkAll {   /* R-type */"),
+               ("PoolWatch::new(", "NodePool::new(   /* R-type: PoolWatch::new (verified as pool_new) */", 2),
+               ("cfg.gossip.static_outbound.keys().cloned().collect()", "tmpl_keys_cloned_collect(&cfg.gossip.static_outbound)   /* R-chain */", None),
+               ("ValidatorAddrsWatch::default()", "AddrsWatch::default()"), ("fetch::Queue::default()", "FetchQueue::default()"),
+               ("0.into()", "atomic_zero()   /* R-std */")],
+         spec="""
+    ensures
+        // inbound: exactly the configured inbound peers bypass the quota, everybody else shares dynamic_inbound_limit
+        r.inbound.allowed() == cfg.gossip.static_inbound@ && r.inbound.limit() == cfg.gossip.dynamic_inbound_limit,
+        // outbound: only the peers this node is configured to dial, no quota for others
+        r.outbound.allowed() == cfg.gossip.static_outbound.dom() && r.outbound.limit() == 0,
+""")
+    U.fn(F_CM, "impl Network :: fn new", wrap="impl ConsensusNetworkAll", ret="r",
+         header_subs=[("Arc<gossip::Network>", "Arc<GossipForConsensus>"), ("anyhow::Result<Option<Arc<Self>>>", "Result<Option<Arc<Self>>, AnyhowError>")],
+         subs=[("gossip.cfg.validator_key.clone()", "gossip.validator_key.clone()   /* R-type */"),
+               ("Arc::new(Self {", "Arc::new(ConsensusNetworkAll {   /* R-type */"),
+               ("PoolWatch::new(", "ValPool::new(", 2)],
+         chains=[dict(recv="gossip", methods=["validator_schedule"], template="gossip.validator_schedule()", count=1)] if False else None,
+         regions=[("let validators: HashSet<_> =", "let validators: HashSet<_> =",
+                   "let validators: ValKeySet = tmpl_schedule_keys_cloned_collect(match gossip.validator_schedule()? { Some(s) => s, None => { return Err(anyhow_error()); } });   /* R-chain: .ok_or_else(..)?.keys().cloned().collect() */")],
+         spec="""
+    ensures
+        // "the validator network admits only members of the current committee": both pools allow exactly the committee, quota 0
+        r matches Ok(Some(n)) ==> gossip.schedule.is_some()
+            && n.inbound.allowed() == gossip.schedule->Some_0.members() && n.inbound.limit() == 0
+            && n.outbound.allowed() == gossip.schedule->Some_0.members() && n.outbound.limit() == 0,
+""")
+
+
 def build(repo):
     U = Unit("admission", ["C12"], desc="connection admission", uses="use std::sync::Arc;\nuse vstd::std_specs::cmp::*;")
     U.repo = repo
     add_pool(U)
     add_handshakes(U)
     add_runners(U)
+    add_constructors(U)
     U.assume("A3: the noise handshake hash is unique per session and cannot be chosen by a peer; signatures are uninterpreted predicates")
     U.assume("A4: the Watch mutex serialises the pool closures (send_if_ok / send_if_modified run atomically); interleavings of concurrent "
              "inserts and the placement of insert/remove in the gossip/consensus runners are not modelled")
